@@ -70,6 +70,10 @@ impl TryFrom<DateTime<Utc>> for crate::Instant {
             .try_into()
             .map_err(|_| TimeError::InvalidTime)?;
         let nanos = time.timestamp_subsec_nanos();
+        // chrono represents a leap second as nanos >= 1e9, which `Instant` cannot hold
+        if u64::from(nanos) >= NANOS_PER_SEC {
+            return Err(TimeError::InvalidTime);
+        }
         Ok(crate::Instant { seconds, nanos })
     }
 }
